@@ -109,9 +109,10 @@ theorem line_fixpoint (cur : String) (c : ℕ) (rates : List XRate) (r : Rule) (
 any number of them, any quantities, prices, percentages, bases, tax combos, included-tax removal, both
 rules, with or without payment details): if it calculates to `out`, then the document read back from
 `out` (presented lines, discounts, charges, advances, due dates) calculates to exactly `out` again —
-same lines, same tax summary, same totals.  "Stable" excludes only fixed amounts with more decimals
-than they are presented with (the known finding) and lines with breakdowns or foreign-currency
-items, which the byte-level differential run covers. -/
+same lines, same tax summary, same totals.  "Stable" (`LineStable`, `DocAdjStable`, `AdvanceStable`) admits plain lines priced in the
+document currency and lines priced by a breakdown of sub-lines; it excludes only fixed amounts with
+more decimals than they are presented with (the known finding) and foreign-currency items, which the
+byte-level differential run covers. -/
 theorem document_fixpoint (d : Doc) (out : Out) (t : Totals) (hs : DocStable d)
     (h : calculate exactOps d = .ok out) (ht : out.totals = some t) :
     calculate exactOps (rereadDoc d out) = .ok out :=
@@ -133,6 +134,16 @@ theorem document_fixpoint_iterates (d : Doc) (out : Out) (t : Totals) (hs : DocS
       rw [Function.iterate_succ_apply', hidem]
       rw [Function.iterate_succ_apply'] at ih
       exact ih
+
+/-- **line_fixpoint_breakdown**: the same for a line priced by a breakdown — sub-lines in the document
+currency with any discounts and charges of their own; the line's own fixed amounts at currency
+precision -/
+theorem line_fixpoint_breakdown (cur : String) (c : ℕ) (rates : List XRate) (r : Rule) (l l1 : Line) (it0 : Item)
+    (hi : l.item = some it0) (hne : l.breakdown ≠ []) (hsl : ∀ sl ∈ l.breakdown, SubLineStable cur sl)
+    (hd : ∀ d ∈ l.discounts, DiscountStable c d) (hc : ∀ d ∈ l.charges, ChargeStable c d)
+    (h1 : calcLine exactOps cur c rates r l = .ok l1) :
+    calcLine exactOps cur c rates r (roundLine exactOps l1) = .ok l1 :=
+  calcLine_fixpoint_breakdown cur c rates r l l1 it0 hi hne hsl hd hc h1
 
 /-- **counter-example (known finding)**: price 10.00, quantity 1, fixed line
 discount 0.005: the first calculation presents total 10.00 and stores the
@@ -424,7 +435,7 @@ example : DocStable stableDoc := by
   · intro l hl
     simp only [stableDoc, List.mem_cons, List.mem_nil_iff, or_false] at hl
     rcases hl with rfl | rfl
-    · refine ⟨rfl, ⟨10005, 3⟩, rfl, rfl, by decide, ?_, ?_⟩
+    · refine Or.inl ⟨rfl, ⟨10005, 3⟩, rfl, rfl, by decide, ?_, ?_⟩
       · intro x hx
         simp only [List.mem_singleton] at hx
         subst hx
@@ -433,7 +444,7 @@ example : DocStable stableDoc := by
         simp only [List.mem_singleton] at hx
         subst hx
         exact Or.inr (Or.inr (by decide))
-    · refine ⟨rfl, ⟨799, 2⟩, rfl, rfl, by decide, ?_, ?_⟩ <;> intro x hx <;> simp at hx
+    · refine Or.inl ⟨rfl, ⟨799, 2⟩, rfl, rfl, by decide, ?_, ?_⟩ <;> intro x hx <;> simp at hx
   · intro x hx
     simp only [stableDoc, List.mem_singleton] at hx
     subst hx
